@@ -21,6 +21,11 @@ fn prepare() {
         eprintln!("cannot build the system under test from {}: exit 2", repo_dir());
         exit(2);
     }
+    if std::env::var("VERIF_NO_INPROC").is_ok() {
+        eprintln!("note: in-process back-end disabled by VERIF_NO_INPROC");
+        set_worker_available(false);
+        return;
+    }
     match build_worker() {
         Ok(()) => set_worker_available(true),
         Err(e) => {
